@@ -674,6 +674,9 @@ func (m *fsImpl) exec(line string) string {
 			es := "-"
 			if err != nil {
 				es = errName(err)
+				if leakSink != nil {
+					leakSink.checkLeak(err) // the error handed to the callback must speak of virtual paths too
+				}
 			}
 			vis = append(vis, fmt.Sprintf("%s:%d:%s", lib.Hex(m.out(path)), kind, es))
 			act := "c"
@@ -691,6 +694,9 @@ func (m *fsImpl) exec(line string) string {
 			return nil
 		})
 		fin := "none"
+		if leakSink != nil && ferr != nil && ferr != errStop {
+			leakSink.checkLeak(ferr)
+		}
 		switch {
 		case ferr == nil:
 		case ferr == errStop:
